@@ -1,3 +1,4 @@
+import Proofs.ToLiquidLemmas
 import Proofs.MapOrder
 import Proofs.RepEq
 /-!
@@ -302,31 +303,23 @@ theorem toLiquid_self {v : GoVal} (h1 : headTag v ≠ 14) (h2 : ∀ w, v = .ptr 
   | ptr w => cases w <;> first | rfl | (have := h2 _ rfl; simp [headTag] at this)
   | _ => rfl
 
-theorem MP.toLiquid {a b : GoVal} (h : MP a b) : MP a.toLiquid b.toLiquid := by
-  by_cases h1 : headTag a = 14
-  · cases h with
-    | refl => exact .refl _
-    | drop h' => simpa [GoVal.toLiquid] using h'
-    | _ => simp [headTag] at h1
-  · by_cases h2 : ∀ w, a = .ptr w → headTag w ≠ 14
-    · have h1' : headTag b ≠ 14 := by rw [← h.headTag_eq]; exact h1
-      have h2' : ∀ w, b = .ptr w → headTag w ≠ 14 := by
-        intro w hw
-        subst hw
-        cases h with
-        | refl => exact h2 _ rfl
-        | ptr h' => rw [← h'.headTag_eq]; exact h2 _ rfl
-      rw [toLiquid_self h1 h2, toLiquid_self h1' h2']
-      exact h
-    · have : ∃ w, a = .ptr w ∧ headTag w = 14 := by
-        apply Classical.byContradiction
-        intro hn
-        exact h2 (fun w hw ht => hn ⟨w, hw, ht⟩)
-      obtain ⟨w, rfl, hw⟩ := this
-      cases w <;> simp [headTag] at hw
-      cases h with
-      | refl => exact .refl _
-      | ptr h' =>
-        cases h' with
-        | refl => exact .refl _
-        | drop h'' => simpa [GoVal.toLiquid] using h''
+theorem MP.toLiquid : ∀ {a b : GoVal}, MP a b → MP a.toLiquid b.toLiquid
+  | _, _, .refl v => .refl _
+  | _, _, .drop h => by simpa using MP.toLiquid h
+  | _, _, .ptr (.refl v) => .refl _
+  | _, _, .ptr (.drop h) => by simpa using MP.toLiquid h
+  | _, _, .ptr (.slice t h) => by simpa [GoVal.toLiquid] using MP.ptr (MP.slice t h)
+  | _, _, .ptr (.array t h) => by simpa [GoVal.toLiquid] using MP.ptr (MP.array t h)
+  | _, _, .ptr (.map kt vt h1 h2 h3 h4 h5 h6) => by simpa [GoVal.toLiquid] using MP.ptr (MP.map kt vt h1 h2 h3 h4 h5 h6)
+  | _, _, .ptr (.mapVals kt vt h1 h2 h3) => by simpa [GoVal.toLiquid] using MP.ptr (MP.mapVals kt vt h1 h2 h3)
+  | _, _, .ptr (.mapSlice h) => by simpa [GoVal.toLiquid] using MP.ptr (MP.mapSlice h)
+  | _, _, .ptr (.keyedMap h1 h2) => by simpa [GoVal.toLiquid] using MP.ptr (MP.keyedMap h1 h2)
+  | _, _, .ptr (.struct h) => by simpa [GoVal.toLiquid] using MP.ptr (MP.struct h)
+  | _, _, .ptr (.ptr h) => by simpa [GoVal.toLiquid] using MP.ptr (MP.ptr h)
+  | _, _, .slice t h => by simpa [GoVal.toLiquid] using MP.slice t h
+  | _, _, .array t h => by simpa [GoVal.toLiquid] using MP.array t h
+  | _, _, .map kt vt h1 h2 h3 h4 h5 h6 => by simpa [GoVal.toLiquid] using MP.map kt vt h1 h2 h3 h4 h5 h6
+  | _, _, .mapVals kt vt h1 h2 h3 => by simpa [GoVal.toLiquid] using MP.mapVals kt vt h1 h2 h3
+  | _, _, .mapSlice h => by simpa [GoVal.toLiquid] using MP.mapSlice h
+  | _, _, .keyedMap h1 h2 => by simpa [GoVal.toLiquid] using MP.keyedMap h1 h2
+  | _, _, .struct h => by simpa [GoVal.toLiquid] using MP.struct h
